@@ -159,12 +159,14 @@ type precCase struct {
 	provRecog    bool
 
 	// event-log material
-	logBytes []byte
-	haveLog  bool
-	varFiles map[string][]byte // file name under the efivarfs root -> content
-	rawBlob  map[int][]byte    // event index -> raw locator
-	varBlob  map[int][]byte    // event index -> variable payload (content[4:])
-	uriOf    map[int]string
+	logBytes  []byte
+	haveLog   bool
+	large     bool
+	rimOffset int               // offset of the first RIM event in the event stream (after the header record)
+	varFiles  map[string][]byte // file name under the efivarfs root -> content
+	rawBlob   map[int][]byte    // event index -> raw locator
+	varBlob   map[int][]byte    // event index -> variable payload (content[4:])
+	uriOf     map[int]string
 }
 
 func randBytes(r *rand.Rand, n int) []byte {
@@ -280,18 +282,35 @@ func (pc *precCase) build(r *rand.Rand, id int) {
 	noise := func() logEvent {
 		switch r.IntN(4) {
 		case 0:
-			return logEvent{0, evPostCode, []byte("ACPI DATA")}
+			return logEvent{PCR: 0, Type: evPostCode, Data: []byte("ACPI DATA")}
 		case 1:
-			return logEvent{0, evNoAction, append([]byte(startupLocality), 0)}
+			return logEvent{PCR: 0, Type: evNoAction, Data: append([]byte(startupLocality), 0)}
 		case 2:
-			return logEvent{7, evEFIAction, []byte("Exit Boot Services Invocation")}
+			return logEvent{PCR: 7, Type: evEFIAction, Data: []byte("Exit Boot Services Invocation")}
 		}
-		return logEvent{uint32(r.IntN(8)), evSeparator, []byte{0, 0, 0, 0}}
+		return logEvent{PCR: uint32(r.IntN(8)), Type: evSeparator, Data: []byte{0, 0, 0, 0}}
 	}
 	var evs []logEvent
+	firstRIM := -1
+	// a quarter of the logs are long: 10-400 ordinary events before and after the RIM events
+	pc.large = r.IntN(4) == 0
 	addNoise := func() {
+		if pc.large {
+			n := 10 + r.IntN(60)
+			if r.IntN(4) == 0 {
+				n = 10 + r.IntN(391)
+			}
+			evs = append(evs, fillerEvents(r, n)...)
+			return
+		}
 		for n := r.IntN(3); n > 0; n-- {
 			evs = append(evs, noise())
+		}
+	}
+	finish := func() {
+		pc.haveLog, pc.logBytes = true, encodeLog(evs)
+		if firstRIM >= 0 {
+			pc.rimOffset = len(encodeLog(evs[:firstRIM])) - logHeaderSize()
 		}
 	}
 	switch pc.shape.file {
@@ -310,16 +329,20 @@ func (pc *precCase) build(r *rand.Rand, id int) {
 			b = append(b, 0, 0, 0x5a, 0)
 		}
 		addNoise()
-		evs = append(evs, logEvent{0, evNoAction, b})
+		firstRIM = len(evs)
+		evs = append(evs, logEvent{Type: evNoAction, Data: b})
 		addNoise()
-		pc.haveLog, pc.logBytes = true, encodeLog(evs)
+		finish()
 	default:
 		addNoise()
 		for idx, d := range pc.shape.events {
-			evs = append(evs, logEvent{0, evNoAction, mkEvent(idx, d)})
+			if firstRIM < 0 {
+				firstRIM = len(evs)
+			}
+			evs = append(evs, logEvent{Type: evNoAction, Data: mkEvent(idx, d)})
 			addNoise()
 		}
-		pc.haveLog, pc.logBytes = true, encodeLog(evs)
+		finish()
 	}
 }
 
@@ -375,6 +398,23 @@ func (pc *precCase) allowedQuoteURLs() map[string]bool {
 		a[modelURL(pc.provTech, pc.mP)] = true
 	}
 	return a
+}
+
+// forcedURL: the object a forced fetch must ask for - that of the 48-byte measurement of the quote
+// in hand (the supplied quote; the provider's when the supplied material names no full
+// measurement and a provider answers with one). ok=false: no full measurement in hand, or a
+// format without an expectation about recognition.
+func (pc *precCase) forcedURL() (string, bool) {
+	if !pc.q.kind.doc {
+		return "", false
+	}
+	if pc.q.kind.full {
+		return modelURL(pc.q.kind.tech, pc.mQ), true
+	}
+	if pc.provFull {
+		return modelURL(pc.provTech, pc.mP), true
+	}
+	return "", false
 }
 
 // localEntry: the certificate-table entry that local-first must return when the event log
@@ -531,6 +571,23 @@ func (pc *precCase) judge(c *core.Ctx, i int, entry, gen string, o outcome) {
 		} else {
 			c.Count("forced/fetched", 1)
 		}
+		// A forced fetch is performed: with a getter and a full-length measurement in hand the one
+		// request is that measurement's object, and what the getter answers is what comes back.
+		if want, ok := pc.forcedURL(); ok && pc.getter != "nil" {
+			c.Count("forced/judged", 1)
+			asked := false
+			for _, u := range o.urls {
+				asked = asked || u == want
+			}
+			switch {
+			case !asked:
+				c.Oracle(i, entry, "forced-fetch-not-performed", gen, "fetch forced, getter present, quote in hand names a 48-byte measurement: want one request for %q; got urls=%v err=%v out=%.60q", want, o.urls, o.err, o.out)
+			case len(o.urls) != 1:
+				c.Oracle(i, entry, "forced-fetch-not-exactly-one-request", gen, "want [%q]; got %v", want, o.urls)
+			case pc.getter == "answers" && (o.err != nil || !bytes.Equal(o.out, netAnswer(want))):
+				c.Oracle(i, entry, "forced-fetch-result-is-not-the-fetched-object", gen, "getter answered %q for %q; call returned err=%v out=%.80q", netAnswer(want), want, o.err, o.out)
+			}
+		}
 		return
 	}
 	// 2. Whatever comes back without any fetch is one of the local evidence items, byte for byte.
@@ -628,8 +685,8 @@ func precDecode(idx int) *precCase {
 }
 
 type precStats struct {
-	local, entry, fetched, uriSel, cliRuns int
-	sampled                                map[string]bool
+	local, localDeep, entry, fetched, uriSel, cliRuns int
+	sampled                                           map[string]bool
 }
 
 // runPrec runs case i (product index idx).
@@ -663,6 +720,13 @@ func runPrec(c *core.Ctx, sc *scratch, i, idx int, st *precStats) {
 	c.Cell("prec|el=%s|q=%s/%v|p=%s|f=%v|urls=%d|%s", pc.shape.name, pc.q.kind.name, pc.q.entry, pclass, pc.force, len(o1.urls), outc)
 	if !pc.force && state == "blob" && o1.err == nil {
 		st.local++
+		if pc.rimOffset > 4096 {
+			st.localDeep++
+		}
+	}
+	if pc.large && pc.haveLog {
+		c.Max("precedence/longest-log-bytes", int64(len(pc.logBytes)))
+		c.Cell("prec-long-log|el=%s|rim-at>=%dKiB|f=%v|%s/%s", pc.shape.name, min(pc.rimOffset>>12, 16)<<2, pc.force, state, outc)
 	}
 	if cat := fmt.Sprintf("%s/urls=%d/%s", state, len(o1.urls), outc); !st.sampled[cat] && len(st.sampled) < 5 {
 		if st.sampled == nil {
